@@ -9,7 +9,7 @@ CONSTANTS
   MaxBatch = 2
   RawCap = 1
   WarmCap = 2
-  Slack = {0, 1}
+  Slack = {0}
 INVARIANT Converges
 INVARIANT HostileHarmless
 PROPERTY BTerminates
